@@ -92,6 +92,31 @@ CLAIMED = {
         "dynamic symbolic execution of the real Python code (vx) + z3 LRA/LIA, path-witness replay",
         "DESIGN.md section 4 C14",
     ),
+    "C12": (
+        "model_checking",
+        "Every validated field of Geometry / Characteristics / Environment / WavelengthHandling / APDCharacteristics with a symbolic value "
+        "(z3 Real/Int, and Float64 terms incl. NaN, +-inf for real-valued fields): constructor accepts <=> attribute setter accepts <=> "
+        "Processor.set (sweep path) accepts <=> documented range (independent table); stored value equals the given one. "
+        "_build_configuration / to_* builders on a mapping with symbolic numeric leaves for 4 detector types x {exposure, observation}: "
+        "every attribute of detector, readout, pipeline and parameter list equals its leaf; 3+4 presence flags (128 patterns): exactly one "
+        "running mode and one detector.",
+        "YAML text parsing and textual numpy.* expressions outside; calibration builder outside; 'running the file gives the same results' "
+        "is not decided; the documented ranges are a table written from docstrings and error messages.",
+        "dynamic symbolic execution of the real Python code (vx) + z3 LRA/LIA/FP, path-witness replay",
+        "DESIGN.md section 4 C12",
+    ),
+    "C13": (
+        "model_checking",
+        "One inductive step from an arbitrary valid state for every container kind (pixel, signal, image, phase, photon 2-D): pre-state "
+        "empty or holding a valid array with symbolic values, one operation in {set, update, +=, +} with an argument of 13 numpy dtypes "
+        "x 5 shapes (right, transposed, broadcastable, extra axis, scalar) and symbolic values, plus empty/read/==; the validity invariant "
+        "(detector shape, allowed dtype family, photon >= 0 after assignment), 'refused operations keep the content', 'reading empty raises', "
+        "and the definition + symmetry of == are decided per path; numpy's own casting/broadcast verdicts come from ghost arrays.",
+        "Real arithmetic (NaN outside); 3-D multi-wavelength photons outside (xarray cannot hold symbolic values); histories follow by "
+        "induction on the invariant.",
+        "dynamic symbolic execution of the real Python code (vx) + z3, one inductive step per operation",
+        "DESIGN.md section 4 C13",
+    ),
 }
 
 NOT_APPLICABLE = {
